@@ -175,6 +175,10 @@ def integrate_spin(expr: Expr, target_idx: str, target_spin: str) -> Expr:
         # - form all unique valid combinations of idx_maps while checking
         #   for contradictions
         combinations = []
+        if not term_spin_idx_maps:
+            # no object with known allowed spin blocks in the term
+            # -> start from an empty map and assign the spins below
+            combinations.append({"a": set(), "b": set()})
         for tensor_spin_idx_maps in term_spin_idx_maps:
             if not combinations:  # initialize combinations
                 combinations.extend(tensor_spin_idx_maps)
